@@ -322,6 +322,12 @@ def family(rec, fam, build_objects, funcs, native_module=None):
         for kind in ('frame', 'independent'):
             def gob(kind=kind):
                 bad = [m for k, m in nfail if k in (kind, 'vacuous')]
+                if kind == 'frame' and not any(k == 'independent' for k, m in nfail):
+                    # undeclared hidden state without an observable consequence is not a violation of the property (see below)
+                    quiet = [m for m in bad if 'changes the object at' in m]
+                    bad = [m for m in bad if 'changes the object at' not in m]
+                    if quiet and not bad:
+                        return ('undecided', 'bounded run-time contract (native execution)', 'undeclared hidden state: %s | no later result differs from a fresh object' % quiet[0])
                 if bad:
                     return ('refuted', 'bounded run-time contract (native execution)', bad[0] + ' | native: executed on the installed chi', {'what': bad[0], 'expected': kind, 'observed': bad[0]})
                 return ('discharged', 'bounded run-time contract (native execution at one numeric point per argument)', '%d evaluations: objects outside the symbolic model %s' % (len(outside) * 4, [o[0] for o in outside]))
@@ -396,11 +402,26 @@ def family(rec, fam, build_objects, funcs, native_module=None):
                 return ('undecided', 'engine', 'an evaluation method could not be executed (precondition of the harness not met or construct outside the symbolic model): %s' % vac[0])
             bad = [(m, lab) for k, m, lab, pair in allf if k == kind]
             if bad:
+                silent = []
                 for m, lab in bad[:6]:
                     nat = native_replay(kind, lab)
+                    if kind == 'frame':
+                        # The property is about what a caller can observe.  A write into the caller's arrays is observable by itself; a
+                        # change of a field of the object outside the declared hidden state (e.g. a memo) breaks the frame argument, and
+                        # is a violation only together with an observable consequence: a later result that differs from a fresh
+                        # object's (independence obligations, natively) -- the re-use, history and later-change contracts look for others.
+                        seen = [x for x in nat if 'modifies its argument' in x]
+                        if not seen and nat:
+                            seen = native_replay('independent', lab)
+                            if not seen:
+                                silent.append((lab, nat[0]))
+                        nat = seen
                     if nat:
                         return ('refuted', 'symbolic execution of the real methods (snapshots / result terms); native replay', '%s | native: %s; %d symbolic failures' % (m, nat[0], len(bad)),
                                 {'what': nat[0], 'object': lab, 'all': [b[0] for b in bad[:20]], 'expected': kind, 'observed': nat[0]})
+                if silent:
+                    return ('undecided', 'symbolic execution of the real methods; native replay', 'undeclared hidden state: %s | no later result of any evaluation method differs from a fresh object (native, every ordered pair of methods); '
+                            'purity is not established by the frame argument for this object' % silent[0][1])
                 return ('undecided', 'symbolic execution of the real methods', '%s (not reproduced natively)' % bad[0][0])
             return ('discharged', 'symbolic execution of the real methods: deep snapshots and result terms', '%d objects, every evaluation method / ordered pair of methods' % len(objs))
         rec.run('%s/%s' % (fam, kind), funcs, 'Pκ', go)
@@ -1334,4 +1355,9 @@ def bounded_inputs(rec):
                      '8 entry points that take arrays / data frames / datasets: deep copies before, equality after construction and every evaluation; distinct by entry point', exhaustive=True)
 
 
-TASKS = [('error', error_models), ('loglikelihood', likelihoods), ('hierarchical', hierarchical), ('predictive', predictive), ('ownership', ownership), ('filter', filters), ('processes', bounded_processes), ('inputs', bounded_inputs), ('seeded-sampling', bounded_seeded_sampling)] + [('histories%d' % k, (lambda rec, k=k: bounded_histories(rec, k, 6))) for k in range(6)] + [('later-changes%d' % k, (lambda rec, k=k: bounded_later_changes(rec, k, 4))) for k in range(4)] + [('population%d' % k, (lambda rec, k=k: population_models(rec, k))) for k in range(3)]
+def transparent_population(rec, family):
+    from contracts import c17
+    c17.population_transparent(rec, family, 'transparent-configuration[%s]' % family)
+
+
+TASKS = [('transparent-%s' % f, (lambda rec, f=f: transparent_population(rec, f))) for f in ('Gaussian', 'LogNormal', 'TruncatedGaussian', 'Pooled', 'Heterogeneous', 'Covariate', 'Composed', 'Reduced')] + [('error', error_models), ('loglikelihood', likelihoods), ('hierarchical', hierarchical), ('predictive', predictive), ('ownership', ownership), ('filter', filters), ('processes', bounded_processes), ('inputs', bounded_inputs), ('seeded-sampling', bounded_seeded_sampling)] + [('histories%d' % k, (lambda rec, k=k: bounded_histories(rec, k, 6))) for k in range(6)] + [('later-changes%d' % k, (lambda rec, k=k: bounded_later_changes(rec, k, 4))) for k in range(4)] + [('population%d' % k, (lambda rec, k=k: population_models(rec, k))) for k in range(3)]
